@@ -30,6 +30,15 @@ CHECKS = {
         note='Trusted: z3, the SInt proxy, llvm-mc 14 as arbiter of mnemonics at witnesses (alias table in c18.py). '
              'Text clause is witness-level, not for every word.',
         design='5/C18', engine='E2'),
+    'C05': dict(
+        level='translation_validation',
+        technique='symbolic execution of the real expr_simp with all constants symbolic (E2) + SMT equivalence of input and output IR (E1, z3)',
+        text='Per expression shape (templates for every rewrite rule, all depth-1 shapes, depth-2 shapes: sampled in quick, all in thorough; '
+             'widths 1/8/16/32/64) every constant is a symbolic integer flowing through the real simplifier; on every path the solver proves '
+             'width(out)=width(in) and E1(out)=E1(in) for all valuations of identifiers/memory and all constants of the path. '
+             'Termination: every path must return within 10 s of interpreter time; a path that does not is replayed concretely.',
+        note='Trusted: z3, the SInt proxy, E1 (vf/ir2smt.py; the standard bit-vector meaning of DESIGN section 4). Bounds: depth <= 2 (+templates), arity <= 4, 3 identifiers.',
+        design='5/C05', engine='E2+E1'),
 }
 
 NOT_APPLICABLE = {
